@@ -148,6 +148,9 @@ LINKS["open2"] = dict(resname=None, atoms={"BB": {"resname": "A"}, "+BB": {}},
                       inter={"bonds": [I(["BB", "+BB"], ["1", "0.39", "3900"])]})
 LINKS["open3"] = dict(resname=None, atoms={"-BB": {}, "BB": {"resname": "B"}, "+BB": {}},
                       inter={"angles": [I(["-BB", "BB", "+BB"], ["2", "115", "15"])]})
+# the residue connection comes from [ edges ] only (pairs make no edge), written with the order as an attribute: BB BB {"order": 1}
+LINKS["pair_edge_attr"] = dict(resname=["A", "B", "C", "D"], inter={"pairs": [I(["BB", "+BB"], ["1", "0.15", "0.25"])]},
+                               edges=[("BB", "+BB", {})], edge_spelling="attr")
 for _l in LINKS.values():
     _l.pop("extra_edges_for_resgraph", None)
 
@@ -215,6 +218,11 @@ def render_link_ff(link):
     if link.get("edges"):
         out.append("[ edges ]")
         for a, b, attrs in link["edges"]:
+            if link.get("edge_spelling") == "attr":
+                # the other spelling of an atom of another residue: its order as an attribute instead of a prefix
+                pre, name = split_key(b)
+                if pre and set(pre) <= {"+"} or pre and set(pre) <= {"-"}:
+                    b = name + " " + json.dumps({"order": order_of(pre)})
             out.append(f"{a} {b}" + _meta_str(attrs))
     if link.get("non_edges"):
         out.append("[ non-edges ]")
